@@ -226,10 +226,9 @@ func addSubscription(m *match.Match, s *pb.SubscriptionList, c *matchClient) (re
 	// returned by AddQuery retain the query slice.
 	prefix = prefix[:len(prefix):len(prefix)]
 	for _, sub := range s.Subscription {
+		// A subscription without a path addresses everything below the prefix,
+		// exactly as the initial walk (processSubscription) treats it.
 		p := sub.GetPath()
-		if p == nil {
-			continue
-		}
 		query := prefix
 		if origin := p.GetOrigin(); s.Prefix.GetOrigin() == "" && origin != "" {
 			query = append(prefix, origin)
